@@ -149,7 +149,11 @@ class History:
             if info:
                 ws = sorted(n for n in w.heads() if n.startswith('w/') and
                             n.split('/', 2)[2] == info['src'])
-                if ws:
+                if step.get('wname') in ws:
+                    w.manual_on_wbranch(step['wname'],
+                                        step.get('kind', 'commit'),
+                                        info['author'])
+                elif ws:
                     w.manual_on_wbranch(ws[step['w'] % len(ws)],
                                         step.get('kind', 'commit'),
                                         info['author'])
